@@ -70,7 +70,7 @@ pub fn build_aux_delta<B: BaseFut, E: FieldElement<BaseField = B>>(spec: &Spec, 
         for k in 0..n - 1 {
             let m: E = E::from(main.get(a.main_col, k));
             col[k + 1] = match a.kind {
-                AuxKind::Product => col[k] * (m + r),
+                AuxKind::Product => col[k] * (m + r).exp((a.pow as u32).into()),
                 AuxKind::Sum => col[k] + r * m,
             };
         }
